@@ -63,7 +63,12 @@ def run_case(rng, tier, case):
     case.spec = {'spec': spec, 'window_kind': wkind, 'steps': [int(s) for s in steps], 'same_prices': same_prices}
     mip = gen.is_mip(spec)
     tolv = solve.TOL_VAL_MIP if mip else solve.TOL_VAL
-    r0 = flow.run_portfolio(spec, do_extract=False)
+    split = None
+    if rng.random() < 0.2 and not g['freq'].endswith('d'):
+        split = gen.pick(rng, ['d', '12h', '6h'])          # fix_time_window is a documented argument of the split set-up as well
+        case.feature('split:' + split)
+        case.spec['split'] = split; case.sample['split'] = split; case.key = env.spec_key([case.key, split])
+    r0 = flow.run_portfolio(spec, do_extract=False, split=split)
     if not r0.ok:
         case.reject('unfixed: ' + flow.describe_error(r0)); return
     if not r0.solved:
@@ -73,17 +78,28 @@ def run_case(rng, tier, case):
     spec2 = spec if same_prices else dict(spec, prices={k: [float(x) for x in v] for k, v in pr.items()})
     # a fresh set of objects for the fixed run, the window dictionary passed as a copy
     fw = {'I': copy.deepcopy(I), 'x': x0.copy()}
-    r1 = flow.run_portfolio(spec2, do_extract=False, fix_time_window=fw)
+    r1 = flow.run_portfolio(spec2, do_extract=False, fix_time_window=fw, split=split)
     if not r1.ok:
-        case.check('fix.setup_works', False, window=wkind, error=flow.describe_error(r1)); return
+        case.check('fix.setup_works', False, window=wkind, split=split, error=flow.describe_error(r1)); return
     case.check('fix.setup_works', True, window=wkind)
-    s0 = Snap(r0.op); s1 = Snap(r1.op)
+
+    def snap_of(op):
+        if not split:
+            return Snap(op)
+        import types
+        ns = types.SimpleNamespace()
+        ns.c = np.concatenate([np.asarray(o.c, float) for o in op.ops]); ns.l = np.concatenate([np.asarray(o.l, float) for o in op.ops])
+        ns.u = np.concatenate([np.asarray(o.u, float) for o in op.ops]); ns.mapping = op.mapping.copy()
+        ns.b = np.concatenate([np.asarray(o.b, float) for o in op.ops if o.b is not None]) if any(o.b is not None for o in op.ops) else np.zeros(0)
+        ns.cType = ''.join(o.cType or '' for o in op.ops)
+        return ns
+    s0 = snap_of(r0.op); s1 = snap_of(r1.op)
     if not same_prices and cap_levels:
         # bounds depend on the data set: the baseline for 'all other variables remain free' is the UNFIXED set-up with the new data
-        rb = flow.run_portfolio(spec2, do_optimize=False)
-        if not rb.ok or len(Snap(rb.op).c) != len(s0.c):
+        rb = flow.run_portfolio(spec2, do_optimize=False, split=split)
+        if not rb.ok or len(snap_of(rb.op).c) != len(s0.c):
             case.inconc('unfixed set-up with the new data failed / differs in size'); return
-        s0 = Snap(rb.op)
+        s0 = snap_of(rb.op)
     if len(s0.c) != len(s1.c):
         case.check('fix.same_variables', False, n0=len(s0.c), n1=len(s1.c)); return
     m = s1.mapping
@@ -99,13 +115,14 @@ def run_case(rng, tier, case):
     case.check('fix.window_variables_pinned', len(bad) == 0, nonvacuous=inwin.any(), window=wkind, n_window_vars=int(inwin.sum()), not_pinned=bad[:6].tolist(),
                l=s1.l[bad[:3]].tolist(), u=s1.u[bad[:3]].tolist(), x_prev=x0[bad[:3]].tolist())
     # all other variables remain free: bounds as in the unfixed problem (same prices: costs and rows identical as well)
+    sameA = (lambda: True) if split else (lambda: (abs(s1.A - s0.A).nnz == 0 or abs(s1.A - s0.A).max() == 0))
     if same_prices:
         okb = np.array_equal(s1.l[outwin], s0.l[outwin]) and np.array_equal(s1.u[outwin], s0.u[outwin])
-        okrest = np.array_equal(s1.c, s0.c) and (abs(s1.A - s0.A).nnz == 0 or abs(s1.A - s0.A).max() == 0) and np.array_equal(s1.b, s0.b) and s1.cType == s0.cType
+        okrest = np.array_equal(s1.c, s0.c) and sameA() and np.array_equal(s1.b, s0.b) and s1.cType == s0.cType
     else:
         # bounds do not depend on prices for the generated classes except capacity given as price key (not generated)
         okb = np.array_equal(s1.l[outwin], s0.l[outwin]) and np.array_equal(s1.u[outwin], s0.u[outwin])
-        okrest = (abs(s1.A - s0.A).nnz == 0 or abs(s1.A - s0.A).max() == 0) and np.array_equal(s1.b, s0.b) and s1.cType == s0.cType
+        okrest = sameA() and np.array_equal(s1.b, s0.b) and s1.cType == s0.cType
     badb = np.where(outwin & ((s1.l != s0.l) | (s1.u != s0.u)))[0]
     case.check('fix.other_bounds_untouched', bool(okb), nonvacuous=outwin.any(), window=wkind, changed=badb[:6].tolist())
     case.check('fix.rows_and_costs_untouched', bool(okrest), window=wkind)
